@@ -799,6 +799,7 @@ type c8Job struct {
 }
 
 type c8Run struct {
+	canPin  bool
 	jobs    []*c8Job
 	sum     *Summary
 	cw      *CaseWriter
@@ -854,7 +855,11 @@ func c8Observe(exp string, multi bool) c8Obs {
 	// If MapAuto/FilterAuto measured more than 200 us per element (a loaded machine: the closures here take about
 	// 2 us) a stage has moved to worker goroutines; those may still tick after the call has returned, so the
 	// child process is replaced after such an observation (cmdC08Child) and the case is repeated on one CPU.
-	obs := c8Eval(exp, 2*time.Second)
+	limit := 2 * time.Second
+	if os.Getenv("C08_PINNED") != "" {
+		limit = 5 * time.Second // one CPU shared with whatever else the machine runs
+	}
+	obs := c8Eval(exp, limit)
 	if multi {
 		obs.Parallel = false // the consumers of multiUse run on goroutines by design
 	}
@@ -927,6 +932,9 @@ func (r *c8Run) runChildren(jobs []*c8Job, pinned bool, dir string) {
 			args = append([]string{"taskset", "-c", "0"}, args...)
 		}
 		cmd := exec.Command(args[0], args[1:]...)
+		if pinned {
+			cmd.Env = append(os.Environ(), "C08_PINNED=1")
+		}
 		var stderr strings.Builder
 		cmd.Stderr = &stderr
 		cmd.Stdout = &stderr
@@ -940,7 +948,9 @@ func (r *c8Run) runChildren(jobs []*c8Job, pinned bool, dir string) {
 				}
 				jobs[done].obs, jobs[done].have = o.Obs, true
 				done++
-				if o.Obs.Kind == "timeout" {
+				if o.Obs.Kind == "timeout" && (pinned || !r.canPin) {
+					// (a timeout in the default configuration is first repeated on one CPU: after a switch to
+					// parallel mode the stages share one stack and may hang or crash, which is C05/C06's business)
 					r.aborted = true
 				}
 			}
@@ -951,7 +961,7 @@ func (r *c8Run) runChildren(jobs []*c8Job, pinned bool, dir string) {
 			}
 			return
 		}
-		if ee, ok := runErr.(*exec.ExitError); ok && ee.ExitCode() == 4 && done > 0 {
+		if ee, ok := runErr.(*exec.ExitError); ok && (ee.ExitCode() == 4 || ee.ExitCode() == 3) && done > 0 {
 			// the child stopped on purpose after an observation in parallel mode
 			jobs = jobs[done:]
 			restarts--
@@ -978,6 +988,7 @@ func (r *c8Run) runChildren(jobs []*c8Job, pinned bool, dir string) {
 
 func (r *c8Run) evaluate(dir string) {
 	_, tsErr := exec.LookPath("taskset")
+	r.canPin = tsErr == nil
 	// 0. multiUse: consumers on goroutines; the hand-over per element makes MapAuto's timing (200 us per element)
 	//    depend on the scheduler, so these cases are observed on one CPU only (NumCPU()==1: plain Map/Filter)
 	var multi, plain []*c8Job
@@ -1006,7 +1017,7 @@ func (r *c8Run) evaluate(dir string) {
 	// 2. whatever ran in parallel mode in every attempt, or crashed there, again on one CPU
 	var again []*c8Job
 	for _, j := range plain {
-		if j.have && (j.obs.Parallel || j.obs.Kind == "crash") {
+		if j.have && (j.obs.Parallel || j.obs.Kind == "crash" || j.obs.Kind == "timeout") {
 			j.first = j.obs.Kind
 			if j.obs.Parallel {
 				j.first = "parallel"
@@ -1096,7 +1107,7 @@ func (r *c8Run) judge(j *c8Job) {
 	case obs.Kind == "generr":
 		symptom, what = "generate-evaluates-closures", fmt.Sprintf("Generate evaluated %d closure calls", len(obs.Log))
 	case obs.Kind == "timeout":
-		symptom, what = "no-prompt-termination", fmt.Sprintf("the call did not return within 2 s (ticks so far: %d, needed prefix %d)", len(obs.Log), need)
+		symptom, what = "no-prompt-termination", fmt.Sprintf("the call did not return within 2 s (5 s when repeated on one CPU) (ticks so far: %d, needed prefix %d)", len(obs.Log), need)
 	case c.Term.Kind == "none" && (obs.Kind != "list" || len(obs.Log) > 0):
 		symptom, what = "build-evaluates-closures", fmt.Sprintf("building the pipeline evaluated %d closure calls / returned %s", len(obs.Log), obs.Kind)
 	case obs.Parallel && obs.Kind == "err" && c.failClass() != "none":
